@@ -63,6 +63,11 @@ def convert_data_attributes(ns_attrs, attrs, namespaces) -> None:
             if namespaces.get(prefix) not in MacroProgram.DROP_NS:
                 # an ordinary data attribute
                 continue
+            # The attribute is replaced by its namespace form: drop its
+            # original entry as well, since ``ns_attrs`` and ``attrs``
+            # are matched by position later on
+            for key in [k for k in ns_attrs if k[1] == attr['name']]:
+                del ns_attrs[key]
             ns_attrs[namespaces[prefix], name] = attr['value']
             attrs.pop(i - d)
             d += 1
